@@ -88,33 +88,29 @@ engine pushes after every command line, so every line boundary is such a point):
  * the subscriber's own SUBSCRIBE of a path it does not hold (with or without filter): `SubNewOK` = `GoodPath` + "the
    session reflects to itself or does not carry the indexing flag" (`subNewOK_by_rule`);
  * the subscriber's own SUBSCRIBE of a path it HOLDS, with any other (or no, or the same) filter, followed by the engine's
-   push: `RefilterOK` = the same rule for the session + `NoOwnEntering` (no node invisible to the subscriber is reported as
-   a `set` by `ChangeQueryFilterCallback`) — automatic for sessions that reflect to themselves, when the held entry carries
-   no filter (narrowing), and when the path's clauses match none of the subscriber's own nodes (`refilterOK_by_rule`);
+   push: `RefilterOK` = the same rule for the session + "the path is held" (`refilterOK_by_rule`).  Nothing about own nodes:
+   `ChangeQueryFilterCallback` skips the subscriber's own nodes by the rule of `GetDataCallback` (`refilter_visits`);
  * the subscriber's own unsubscribe of any path (client drop rule `applyUnsub`);
  * the subscriber's own max-items and default-route parameters, set or removed;
  * the subscriber's own reflect-to-self parameter while it holds NO subscription or reflects to itself already (`SelfOK`).
-Session kinds: sessions that reflect to themselves — everything above without further hypothesis; plain sessions without
-the indexing flag — everything above, re-filter with `NoOwnEntering`.
+Session kinds: sessions that reflect to themselves and plain sessions without the indexing flag — everything above, with
+no hypothesis about the session beyond those named.
 
 OUTSIDE (not claimed; with the reason):
  (1) plain sessions that CARRY THE INDEXING FLAG (after their own INSERTORDEREDDATA / SETDATA with the index flag): their own
      SUBSCRIBE / re-filter.  `GetDataCallback` then includes the subscriber's own nodes in the snapshot (by design), which
      `MirrorOK` (own nodes invisible) does not allow; `SubNewOK` can still be discharged by hand when `SnapVisits` holds.
- (2) re-filter by a plain session when an OWN node enters (old filter rejects, new filter accepts, no other subscription of
-     the session matches): the server reports the own node although notifications never would (example `exOwn` below; the
-     real server behaves the same — recorded observation), so the mirror gains a path the specification excludes.
- (3) the reflect-to-self parameter set WHILE subscriptions are held by a session not yet reflecting: the server sends no
+ (2) the reflect-to-self parameter set WHILE subscriptions are held by a session not yet reflecting: the server sends no
      snapshot for it, own nodes become visible for NEW events only; `MirrorOK` for the new visibility rule fails at that
      moment for every own node already matched.  There is no command that clears the flag.
- (4) the subscriber's own departure (the mirror ends) and the harness pump that empties inboxes (the theorem speaks about
+ (3) the subscriber's own departure (the mirror ends) and the harness pump that empties inboxes (the theorem speaks about
      what was APPENDED to the inbox) are not steps of a run.
- (5) SUBSCRIBE paths that are not `GoodPath` (empty clause — finding F11 — or clauses outside the two pattern laws of C05),
+ (4) SUBSCRIBE paths that are not `GoodPath` (empty clause — finding F11 — or clauses outside the two pattern laws of C05),
      SETDATA / INSERTORDEREDDATA beyond the depth fuel (the model's `setDataNode` has no depth check of its own), host names
      containing `/` (path strings then stop being injective).
- (6) the engine's subtree ops `clone` / `save` / `restore` / `trees` (C13) are not commands of `runCmd`; `LineOK` of
+ (5) the engine's subtree ops `clone` / `save` / `restore` / `trees` (C13) are not commands of `runCmd`; `LineOK` of
      section 4 excludes them from `marks_correct_engine`, and no run contains them.
- (7) a start with subscriptions already held (the client would need the matching mirror; `run3_quiescent` is the per-step form
+ (6) a start with subscriptions already held (the client would need the matching mirror; `run3_quiescent` is the per-step form
      from ANY `Quiescent` point and covers it when `MirrorOK` is given).
 The earlier convergence theorems (`converges_partial`, `converges_steady`, `converges_fixed_subs…`, `converges_changing_subs`,
 `converges_changing_subs_params`) are special cases kept because their statements are simpler.
@@ -1056,10 +1052,9 @@ example : Run2 0 exSv1 (runCmd exSv1 0 (.paramMax 1)) := .ownParam (.paramMax 1)
 
 `verdict g d`: the verdict of an entry's filter `g` on payload `d` (no filter: true).  `rfCond s fix e f v n`: the condition
 under which `ChangeQueryFilterCallback` reports node `n` at `v` when the held entry `e` (normalised path `fix`) gets filter
-`f`: the verdict changes and no OTHER entry of the session matches.  `NoOwnEntering sv s fix e f`: every node invisible to
-`s` that the path's clauses match and that is reported, is reported as a removal (old verdict true).  `RefilterOK sid sv path f`:
-the session reflects to itself or does not carry the indexing flag, it holds an entry under the normalised spelling of
-`path`, and `NoOwnEntering`.  `SelfOK sid sv`: the session holds no subscription or reflects to itself already.
+`f`: the verdict changes and no OTHER entry of the session matches.  `RefilterOK sid sv path f`: the session reflects to
+itself or does not carry the indexing flag, and it holds an entry under the normalised spelling of `path`.
+`SelfOK sid sv`: the session holds no subscription or reflects to itself already.
 `Run3` = `Run2` plus re-filter steps (with the engine's push) and the reflect-to-self parameter. -/
 
 /-- RE-FILTER.  At a quiescent point the subscriber sends SUBSCRIBE for a path it holds.  The server feeds the changes of
@@ -1079,20 +1074,23 @@ theorem refilterOK_reflect_self {sid : Nat} {sv : Server} (path : Bytes) (f : Op
       (pmFind s.subs (adjustPrefix path (some defaultPrefix))).isSome = true) : RefilterOK sid sv path f :=
   refilterOK_of_reflectSelf path f h
 
-/-- for a plain session: the rule of section 12, the path is held, and either the held entry carries no filter (whatever
-    the new filter drops is reported as a removal — nothing can enter) or the path's clauses match no node invisible to
-    the session -/
+/-- `RefilterOK` spelled out: the rule of section 12 and "the path is held" -/
 theorem refilterOK_by_rule {sid : Nat} {sv : Server} (path : Bytes) (f : Option Filt)
     (h : ∀ s, sv.sess? sid = some s → (s.reflectSelf = true ∨ s.indexingPresent = false) ∧
-      ∃ e, pmFind s.subs (adjustPrefix path (some defaultPrefix)) = some e ∧
-        (s.reflectSelf = true ∨ e.filter = none ∨
-          ∀ v n, getNode sv v = some n → clausesMatch (splitSlash (adjustPrefix path (some defaultPrefix))) v = true →
-            visible s v = true)) : RefilterOK sid sv path f :=
+      (pmFind s.subs (adjustPrefix path (some defaultPrefix))).isSome = true) : RefilterOK sid sv path f :=
   refilterOK_of_rule path f h
 
-/-- what the re-filter reports, as events: for every visited node whose verdict changes and that no other entry matches,
-    a removal if the old verdict was true, a set otherwise — whether or not the node is visible to the subscriber (this is
-    the recorded observation: notifications test the caller, `ChangeQueryFilterCallback` does not) -/
+/-- the nodes `ChangeQueryFilterCallback` is run on: the existing nodes the path's clauses match that are VISIBLE to the
+    session — its own nodes are skipped unless it reflects to itself (the rule of `GetDataCallback`; coupling
+    `getdata_visits`) -/
+theorem refilter_visits {sv : Server} (hti : TreeInv sv) {s : Sess} (h : s.reflectSelf = true ∨ s.indexingPresent = false)
+    {fix : Bytes} (hgood : GoodPath fix) :
+    ∀ w, w ∈ travGlobal sv (pmPut [] fix none) false (getDataCb s) ↔
+      ∃ n, w ≠ [] ∧ getNode sv w = some n ∧ clausesMatch (splitSlash fix) w = true ∧ visible s w = true :=
+  rfVisits_of hti h hgood
+
+/-- what the re-filter reports over visits `V`, as events: for every visited node whose verdict changes and that no other
+    entry matches, a removal if the old verdict was true, a set otherwise -/
 theorem refilter_events {s : Sess} {fix : Bytes} {e : Entry} {f : Option Filt} {sv : Server} {V : List Visit} {ev : Ev} :
     ev ∈ rfEvs s fix e f sv V ↔ ∃ w ∈ V, ∃ n, getNode sv w = some n ∧ rfCond s fix e f w n = true ∧
       ev = evOf (pathString w) n.data (verdict e.filter n.data) :=
@@ -1176,9 +1174,9 @@ example : Run3 0 exSv1 (pushAll (runCmd exSv2 0 (.sub [42] (some (fGt 5))))) := 
 example : ((runCmd exSv2 0 (.sub [42] (some (fGt 5)))).sess? 0).map (fun s => decide (s.inbox.length = 1 ∧
     (pend s).removed = [pathString [[105], sidName 1, [97]]] ∧ (pend s).sets = [])) = some true := by decide +kernel
 
-/-- a plain session: session 0 of `exSv` holds `a` without filter; narrowing it satisfies `RefilterOK` -/
+/-- a plain session: session 0 of `exSv` holds `a`; re-subscribing it with a filter satisfies `RefilterOK` -/
 theorem exSv_sess0 : (exSv.sess? 0).map (fun s => (s.reflectSelf, s.indexingPresent,
-    (pmFind s.subs (adjustPrefix [97] (some defaultPrefix))).map (·.filter))) = some (false, false, some none) := by
+    (pmFind s.subs (adjustPrefix [97] (some defaultPrefix))).isSome)) = some (false, false, true) := by
   decide +kernel
 
 example : RefilterOK 0 exSv [97] (some (fGt 5)) := by
@@ -1187,12 +1185,7 @@ example : RefilterOK 0 exSv [97] (some (fGt 5)) := by
   have h := exSv_sess0
   rw [hs] at h
   simp only [Option.map_some, Option.some.injEq, Prod.mk.injEq] at h
-  obtain ⟨h1, h2, h3⟩ := h
-  cases hf : pmFind s.subs (adjustPrefix [97] (some defaultPrefix)) with
-  | none => rw [hf] at h3; cases h3
-  | some e =>
-    rw [hf] at h3
-    exact ⟨Or.inr h2, e, rfl, Or.inr (Or.inl (Option.some.inj h3))⟩
+  exact ⟨Or.inr h.2.1, h.2.2⟩
 
 /-- the reflect-to-self parameter of a plain session without subscription (session 1 of `exSv`) -/
 example : Run3 1 exSv (runCmd exSv 1 .paramSelf) := by
@@ -1203,16 +1196,41 @@ example : Run3 1 exSv (runCmd exSv 1 .paramSelf) := by
   simp only [Option.map_some, Option.some.injEq, Prod.mk.injEq] at h
   exact Or.inl (List.eq_nil_of_length_eq_zero h.1)
 
-/-! The case OUTSIDE `NoOwnEntering` is real (item (2) of the header list).  `exOwn`: session 1, plain, owns `/i/1/a` = 5 and
-holds `*` with the filter "> 7": its inbox is empty, nothing is pending, the node is invisible to it.  It re-subscribes
-to `*` without filter: the server puts a `set` of its OWN node `/i/1/a` into its pending Message. -/
+/-! Own nodes are not reported.  `exOwn`: session 1, plain, owns `/i/1/a` = 5 and holds `*` with the filter "> 7": its
+inbox is empty, nothing is pending, the node is invisible to it.  It re-subscribes to `*` without filter (`RefilterOK`
+holds): the verdict on its own node changes from false to true and no other entry matches it, but nothing is fed and the
+snapshot is empty.  `refilterOld` = the re-filter fold over the visits of the continue-callback (the rule before the
+repair of `ChangeQueryFilterCallback`): it put a `set` of the session's OWN node into its pending Message. -/
 def exOwn : Server :=
   runCmd (runCmd (attach (attach {} 0 [104]).1 1 [105]).1 1 (.set [97] 5 false)) 1 (.sub [42] (some (fGt 7)))
 
-example : (exOwn.sess? 1).map (fun s => (s.reflectSelf, s.indexingPresent, s.inbox.length, s.nextData.isNone,
-    visible s [[105], sidName 1, [97]])) = some (false, false, 0, true, false) := by decide +kernel
+theorem exOwn_sess1 : (exOwn.sess? 1).map (fun s => (s.reflectSelf, s.indexingPresent, s.inbox.length, s.nextData.isNone,
+    visible s [[105], sidName 1, [97]], (pmFind s.subs (adjustPrefix [42] (some defaultPrefix))).isSome)) =
+    some (false, false, 0, true, false, true) := by decide +kernel
+
+example : RefilterOK 1 exOwn [42] none := by
+  apply refilterOK_by_rule
+  intro s hs
+  have h := exOwn_sess1
+  rw [hs] at h
+  simp only [Option.map_some, Option.some.injEq, Prod.mk.injEq] at h
+  exact ⟨Or.inr h.2.1, h.2.2.2.2.2⟩
 
 example : ((runCmd exOwn 1 (.sub [42] none)).sess? 1).map (fun s => decide (s.inbox.length = 0 ∧
+    (pend s).removed = [] ∧ (pend s).sets = [])) = some true := by
+  decide +kernel
+
+def refilterOld (sv : Server) (sid : Nat) (path : Bytes) (f : Option Filt) : Server :=
+  match sv.sess? sid with
+  | none => sv
+  | some s =>
+    match pmFind s.subs (adjustPrefix path (some defaultPrefix)) with
+    | none => sv
+    | some e =>
+      (travGlobal sv (pmPut [] (adjustPrefix path (some defaultPrefix)) none) false cbContinue).foldl
+        (rfStep s sid (adjustPrefix path (some defaultPrefix)) e f) sv
+
+example : ((refilterOld exOwn 1 [42] none).sess? 1).map (fun s => decide (s.inbox.length = 0 ∧
     (pend s).removed = [] ∧ (pend s).sets = [(pathString [[105], sidName 1, [97]], [some 5])])) = some true := by
   decide +kernel
 
